@@ -13,6 +13,7 @@ PROP = {
     "reasons": {"1": "interval delta is not 0 or within 1..max_increase_delta whole seconds", "2": "min interval did not follow / did not stay",
                 "3": "another field of request/response/context changed", "4": "delta not a function of infohash and peer ID",
                 "5": "configuration outside (0,1] x >=1 accepted, or valid configuration refused",
+                "6": "modify_response_probability is exactly 1 and a response was not modified (the configured fraction is every response)",
                 "101": "interval differs from model", "102": "min interval differs from model", "103": "which config error differs from model"},
     "assumptions": ["float32(v)/2^24 is exact for v < 2^24 and the float32 probability is shipped as exact mantissa*2^exponent (IEEE-754)",
                     "Go int is 64 bit", "no int64 overflow of interval + max_delta seconds (visible hypothesis of C18_hook_effect; generators stay below 2^62 ns)"],
